@@ -8,6 +8,7 @@ import (
 func init() {
 	vHarnesses["VerifH_C01_traversal"] = VerifH_C01_traversal
 	vHarnesses["VerifH_C01_path"] = VerifH_C01_path
+	vHarnesses["VerifH_C01_unwind"] = VerifH_C01_unwind
 }
 
 // ---------------------------------------------------------------------------
@@ -836,4 +837,90 @@ func VerifH_C01_path() {
 		}
 	}
 	vAssert("C01.path.rows-equal-reference", same)
+}
+
+// ---------------------------------------------------------------------------
+// unwind(field): one row per element of the array found at field, the field
+// holding that element and everything else as it was; an earlier mark of the
+// element keeps the whole array.
+// ---------------------------------------------------------------------------
+
+func c01Dig(m map[string]interface{}, path []string) interface{} {
+	var cur interface{} = m
+	for _, p := range path {
+		mm, ok := cur.(map[string]interface{})
+		if !ok {
+			return nil
+		}
+		cur = mm[p]
+	}
+	return cur
+}
+
+func VerifH_C01_unwind() {
+	n := 2 + vChoice("elements", 2) // 2..3 elements
+	var tags, nums []interface{}
+	for i := 0; i < n; i++ {
+		tags = append(tags, vSymID("tag"+string(rune('0'+i)), 'p', 'r'))
+		nums = append(nums, vFinite("num"+string(rune('0'+i))))
+	}
+	g := &vGraph{honourLoad: false}
+	g.vs = []*gdbi.Vertex{{ID: "a", Label: "A", Loaded: true, Data: map[string]interface{}{
+		"y": nums, "k": "keep", "info": map[string]interface{}{"tags": tags, "other": 7.0}}}}
+	g.compiler = func(g *vGraph) gdbi.Compiler { return NewCompiler(g, IndexStartOptimize) }
+	nested := vChoice("field", 2) == 1
+	field, path, list := "y", []string{"y"}, nums
+	if nested {
+		field, path, list = "info.tags", []string{"info", "tags"}, tags
+	}
+	marked := vChoice("mark", 2) == 1
+	stmts := []*gripql.GraphStatement{sV("a")}
+	if marked {
+		stmts = append(stmts, sAs("m"))
+	}
+	stmts = append(stmts, sUnwind(field))
+	back := marked && vChoice("selectMark", 2) == 1
+	if back {
+		stmts = append(stmts, sSelect("m"))
+	}
+	pipe, err := g.Compiler().Compile(stmts, nil)
+	vAssert("C01.unwind.compiles", err == nil)
+	if err != nil {
+		return
+	}
+	rows := vRunPipe(g, pipe, 2)
+	vReach("c01.unwind.ran")
+	vAssert("C01.unwind.one-row-per-element", len(rows) == len(list))
+	for _, r := range rows {
+		v := r.GetVertex()
+		vAssert("C01.unwind.rows-are-the-vertex", v != nil && v.Gid == "a" && v.Label == "A")
+		if v == nil {
+			return
+		}
+		data := v.Data.AsMap()
+		if back {
+			// the mark was taken before the unwind: it still holds the whole array
+			vAssert("C01.unwind.mark-keeps-array", c01JSONEq(c01Dig(data, path), list))
+			continue
+		}
+		vAssert("C01.unwind.other-fields-kept", data["k"] == "keep" && c01JSONEq(c01Dig(data, []string{"info", "other"}), 7.0))
+	}
+	if back {
+		return
+	}
+	// the unwound field holds each element as often as the array does
+	for _, e := range list {
+		nw, ng := 0, 0
+		for _, e2 := range list {
+			if c01JSONEq(e, e2) {
+				nw++
+			}
+		}
+		for _, r := range rows {
+			if c01JSONEq(c01Dig(r.GetVertex().Data.AsMap(), path), e) {
+				ng++
+			}
+		}
+		vAssert("C01.unwind.field-holds-each-element", nw == ng)
+	}
 }
